@@ -207,7 +207,8 @@ def _gen_elem(rng, scope, depth, o):
 
 def _gen_comment(rng, o):
     s = _chars(rng, rng.randrange(0, 8), o['nonascii'] == 'all')
-    s = s.replace('--', '- -')
+    while '--' in s:
+        s = s.replace('--', '- -')
     if s.endswith('-'):
         s += ' '
     return {'t': 'c', 's': s.replace('\r', '')}
@@ -452,6 +453,12 @@ def expat_events(data, ns_events=False):
     p.EndCdataSectionHandler = lambda: out.append(['EC'])
     p.XmlDeclHandler = lambda v, e, s: out.append(['XD', v, e, s])
     p.StartDoctypeDeclHandler = lambda name, sysid, pubid, internal: out.append(['DT', name, pubid, sysid])
+    def skipped(name, is_param):
+        # an undefined entity after a DOCTYPE with an external subset is not a well-formedness error for
+        # expat; nothing in the languages compared here may contain one
+        raise NotWellFormed('skipped entity %s' % name)
+
+    p.SkippedEntityHandler = skipped
     if ns_events:
         p.StartNamespaceDeclHandler = lambda pfx, uri: out.append(['NS', pfx or '', uri or ''])
         p.EndNamespaceDeclHandler = lambda pfx: out.append(['ENS', pfx or ''])
